@@ -3,23 +3,15 @@ From Verif Require Import Base Net Bitset Alloc Msg4 IpcalcRun RangePlugin.
 Open Scope N_scope.
 
 Inductive rop :=
-| RReq (now : Z) (chaddr host : bytes)
+| RReq (t0 t1 : Z) (chaddr host : bytes)       (* clock readings taken just before and after the call *)
 | RRestart (table : list (bytes * bytes)).    (* restart; carries the (mac, ip) rows the harness read *)
 
 Inductive rout :=
-| ROut (yiaddr : bytes) (opt51 : bytes)
+| ROut (yiaddr : bytes) (opt51 : bytes) (expiry : option Z)   (* expiry: the client's row in leases4 after the call *)
 | RDrop
 | RRestartOk (table_agrees : bool)
 | RRestartErr
 | RPanic.
-
-Definition rout_eqb (a b : rout) : bool :=
-  match a, b with
-  | ROut y o, ROut y' o' => bytes_eqb y y' && bytes_eqb o o'
-  | RDrop, RDrop | RRestartErr, RRestartErr | RPanic, RPanic => true
-  | RRestartOk x, RRestartOk y => Bool.eqb x y
-  | _, _ => false
-  end.
 
 Definition empty_msg : msg4 :=
   {| m_op := 2; m_htype := 1; m_hops := 0; m_xid := 0; m_secs := 0; m_flags := 0;
@@ -37,34 +29,51 @@ Definition pair_in (p : bytes * bytes) (l : list (bytes * bytes)) : bool :=
 Definition table_eqb (a b : list (bytes * bytes)) : bool :=
   Nat.eqb (length a) (length b) && forallb (fun p => pair_in p b) a && forallb (fun p => pair_in p a) b.
 
-Definition rstep (s e : bytes) (st : rstate) (o : rop) : rstate * rout :=
-  match o with
-  | RReq now ch host =>
-      let '(st', r) := range_handler st now (req_of ch host) empty_msg in
-      (st', match r with
-            | Ok (Some m, _) => ROut (m_yiaddr m) (match opt_get 51 (m_opts m) with Some x => x | None => [] end)
-            | Ok (None, _) => RDrop
-            | _ => RPanic
-            end)
-  | RRestart tbl =>
-      let agrees := table_eqb tbl (map (fun r => (r_mac r, r_ip r)) (rs_db st)) in
-      match range_setup s e (rs_lease st) (rs_db st) with
-      | Ok st' => (st', RRestartOk agrees)
-      | _ => (st, RRestartErr)
+(* The implementation reads its own clock somewhere between t0 and t1.  Stored expiries are
+   monotone in the clock readings, so the model is run twice - on the readings before (lo) and
+   after (hi) each call - and the observed expiry must lie between the two. *)
+Definition exp_of (st : rstate) (ch : bytes) : option Z :=
+  option_map rc_exp (recs_get (mac_string ch) (rs_recs st)).
+
+Definition rstep1 (s e : bytes) (st : rstate) (now : Z) (ch host : bytes) : rstate * rout :=
+  let '(st', r) := range_handler st now (req_of ch host) empty_msg in
+  (st', match r with
+        | Ok (Some m, _) => ROut (m_yiaddr m) (match opt_get 51 (m_opts m) with Some x => x | None => [] end) (exp_of st' ch)
+        | Ok (None, _) => RDrop
+        | _ => RPanic
+        end).
+
+Definition restart1 (s e : bytes) (st : rstate) : option rstate :=
+  match range_setup s e (rs_lease st) (rs_db st) with Ok st' => Some st' | _ => None end.
+
+(* does the observation agree with the two model runs? *)
+Definition rout_ok (lo hi obs : rout) : bool :=
+  match lo, hi, obs with
+  | ROut y o el, ROut y' o' eh, ROut y'' o'' ex =>
+      bytes_eqb y y'' && bytes_eqb y' y'' && bytes_eqb o o'' && bytes_eqb o' o'' &&
+      match ex, el, eh with
+      | Some x, Some l, Some h => (l <=? x)%Z && (x <=? h)%Z
+      | None, _, _ => true
+      | _, _, _ => false
       end
+  | RDrop, RDrop, RDrop | RPanic, RPanic, RPanic => true
+  | _, _, _ => false
   end.
 
-Fixpoint rrun (s e : bytes) (st : rstate) (ops : list rop) : list rout :=
-  match ops with
-  | [] => []
-  | o :: ops' => let '(st', r) := rstep s e st o in
-                 r :: match r with RPanic | RRestartErr => [] | _ => rrun s e st' ops' end
-  end.
-
-Fixpoint routs_eqb (x y : list rout) : bool :=
-  match x, y with
+Fixpoint rrun_ok (s e : bytes) (lo hi : rstate) (ops : list rop) (outs : list rout) : bool :=
+  match ops, outs with
   | [], [] => true
-  | a :: x', b :: y' => rout_eqb a b && routs_eqb x' y'
+  | RReq t0 t1 ch host :: ops', obs :: outs' =>
+      let '(lo', rl) := rstep1 s e lo t0 ch host in
+      let '(hi', rh) := rstep1 s e hi t1 ch host in
+      rout_ok rl rh obs && match obs with RPanic => match outs' with [] => true | _ => false end | _ => rrun_ok s e lo' hi' ops' outs' end
+  | RRestart tbl :: ops', obs :: outs' =>
+      let agrees := table_eqb tbl (map (fun r => (r_mac r, r_ip r)) (rs_db lo)) in
+      match restart1 s e lo, restart1 s e hi, obs with
+      | Some lo', Some hi', RRestartOk a => Bool.eqb a agrees && rrun_ok s e lo' hi' ops' outs'
+      | None, None, RRestartErr => match outs' with [] => true | _ => false end
+      | _, _, _ => false
+      end
   | _, _ => false
   end.
 
@@ -74,7 +83,7 @@ Definition check_rcase (c : rcase) : bool :=
   match c with
   | CR s e lease ops outs =>
       match range_setup s e lease [] with
-      | Ok st => routs_eqb (rrun s e st ops) outs
+      | Ok st => rrun_ok s e st st ops outs
       | _ => match outs with [RRestartErr] => true | _ => false end
       end
   end.
